@@ -27,9 +27,10 @@ UNITS = []  # list of Unit
 
 
 class Clause:
-    def __init__(self, name, expr):
+    def __init__(self, name, expr, props=None):
         self.name = name
         self.expr = expr  # str or callable(S) -> bool / z3 Bool
+        self.props = props  # None = all properties of the contract
 
 
 class CallState:
@@ -75,24 +76,28 @@ class Contract:
         self.env_hooks = {}
         self.self_check = True
         self.variants = None
+        self.name = qualname
+        self.apply_hook = None  # callable(S): ghost effects of a call when the contract is used as a summary
+        self.exit_hook = None  # callable(S, outcome): extra obligations at unit exit (ghost ledgers, Inv)
+        self.ok_exceptions = None  # exception class names allowed to escape without a raises clause
 
     # builder API
     def requires(self, expr, name=None):
         self.pre.append(Clause(name or f"pre{len(self.pre)}", expr))
         return self
 
-    def ensures(self, expr, name=None):
-        self.post.append(Clause(name or f"post{len(self.post)}", expr))
+    def ensures(self, expr, name=None, props=None):
+        self.post.append(Clause(name or f"post{len(self.post)}", expr, props))
         return self
 
-    def raises_(self, exc, expr=None, name=None):
+    def raises_(self, exc, expr=None, name=None, props=None):
         self.raises.setdefault(exc, [])
         if expr is not None:
-            self.raises[exc].append(Clause(name or f"{exc}{len(self.raises[exc])}", expr))
+            self.raises[exc].append(Clause(name or f"{exc}{len(self.raises[exc])}", expr, props))
         return self
 
-    def on_every_exit(self, expr, name=None):
-        self.any_exit.append(Clause(name or f"exit{len(self.any_exit)}", expr))
+    def on_every_exit(self, expr, name=None, props=None):
+        self.any_exit.append(Clause(name or f"exit{len(self.any_exit)}", expr, props))
         return self
 
     def old(self, name, expr):
@@ -104,9 +109,11 @@ class Contract:
         return self
 
 
-def contract(module, qualname, props=()):
+def contract(module, qualname, props=(), name=None):
     c = Contract(module, qualname, props)
-    REGISTRY[(module, qualname)] = c
+    if name:
+        c.name = name
+    REGISTRY[(module, c.name)] = c
     return c
 
 
@@ -236,6 +243,16 @@ class SpecInterp:
             return SV("bool", z3.And(*fs2) if len(fs2) > 1 else fs2[0])
         if isinstance(e, ast.Compare):
             return it.compare(e.ops[0], self.ev(e.left, env), self.ev(e.comparators[0], env))
+        if isinstance(e, ast.Call) and isinstance(e.func, ast.Name) and e.func.id == "implies" and len(e.args) == 2:
+            p = self._to_formula(self.ev(e.args[0], env))
+            if p is False:
+                return True
+            q = self._to_formula(self.ev(e.args[1], env))
+            if p is True:
+                return q if isinstance(q, bool) else SV("bool", q)
+            if q is True:
+                return True
+            return SV("bool", z3.Implies(p, z3.BoolVal(q) if isinstance(q, bool) else q))
         if isinstance(e, ast.Call):
             f = self.ev(e.func, env)
             args = [self.ev(a, env) for a in e.args]
@@ -276,6 +293,9 @@ class LoopSpec:
 
     def _S(self, it, env):
         vars = {}
+        us = getattr(it.ctx, "unit_state", None)
+        if us is not None:
+            vars.update(us.vars)
         e = env
         chain = []
         while e is not None:
@@ -302,7 +322,7 @@ class LoopSpec:
         return False
 
     def havoc(self, it, env, targets, lname):
-        for name in sorted(set(targets) | self.extra_targets):
+        for name in sorted(set(targets) | self.extra_targets | set(self.shapes)):
             e = env.find(name)
             shape = self.shapes.get(name)
             if shape is not None:
@@ -401,9 +421,11 @@ def apply_contract(it, c, vars):
         ctx.check(f"{site}/pre:{cl.name}", _b(sp.formula(cl.expr, S)))
     for k, e in c.old_exprs.items():
         S.old[k] = sp.value(e, S)
+    if c.apply_hook is not None:
+        c.apply_hook(S)
     if c.may_suspend:
         it.suspend("call:" + c.qualname)
-    outcomes = ["return"] + sorted(c.raises.keys())
+    outcomes = ["return"] + sorted(k for k in c.raises.keys() if k != "CancelledError")
     idx = ctx.choose(len(outcomes), f"{c.qualname}-outcome") if len(outcomes) > 1 else 0
     if c.modifies is not None:
         for obj, field, shape in c.modifies(S):
@@ -419,7 +441,9 @@ def apply_contract(it, c, vars):
             ctx.assume(_b(sp.formula(cl.expr, S)))
         return S.result
     name = outcomes[idx]
-    exc = it.make_exc(name)
+    if name == "NoAvailablePort":
+        ctx.event("exhausted")
+    exc = it.make_exc(_find_exc(it, name))
     S.exc = exc
     for cl in c.raises[name] + c.any_exit:
         ctx.assume(_b(sp.formula(cl.expr, S)))
@@ -507,7 +531,7 @@ def find_function(it, module, qualname):
 def run_unit(c: Contract, repo, opts=None):
     """Verify function c.(module, qualname) of the tree at `repo` against its contract."""
     opts = opts or {}
-    res = UnitResult(f"{c.module}:{c.qualname}")
+    res = UnitResult(f"{c.module}:{c.name}")
     t0 = time.time()
     variants = c.variants or [None]
 
@@ -521,6 +545,7 @@ def run_unit(c: Contract, repo, opts=None):
             raise Unsupported("contract has no setup")
         target, args, kwargs, vars = c.setup(u)
         S = CallState(it, vars, c)
+        ctx.unit_state = S
         sp = SpecInterp(it)
         for cl in c.pre:
             ctx.assume(_b(sp.formula(cl.expr, S)))
@@ -529,7 +554,6 @@ def run_unit(c: Contract, repo, opts=None):
             S.old[k] = sp.value(e, S)
         it.cancellable = c.cancellable
         u.S = S
-        ctx.unit_state = S
         try:
             it._entering_unit = True
             r = it.call(target, args, kwargs)
@@ -543,9 +567,11 @@ def run_unit(c: Contract, repo, opts=None):
             S.exc = pr.exc
             outcome = ("raise", pr.exc)
         it.cancellable = False
+        if c.exit_hook is not None:
+            c.exit_hook(S, outcome)
         if outcome[0] == "return":
             for cl in c.post + c.any_exit:
-                ctx.check(f"{c.qualname}/post:{cl.name}", _b(sp.formula(cl.expr, S)))
+                ctx.check(f"{c.qualname}/post:{cl.name}", _b(sp.formula(cl.expr, S)), info={"props": cl.props})
             ctx.cover(f"{c.qualname}/cover:return")
         else:
             exc = outcome[1]
@@ -558,7 +584,7 @@ def run_unit(c: Contract, repo, opts=None):
                 ctx.check(f"{c.qualname}/raises:unexpected-{exc.cls.name}", z3.BoolVal(False), info={"exc": exc.cls.name})
             else:
                 for cl in c.raises[matched] + c.any_exit:
-                    ctx.check(f"{c.qualname}/raises:{matched}:{cl.name}", _b(sp.formula(cl.expr, S)))
+                    ctx.check(f"{c.qualname}/raises:{matched}:{cl.name}", _b(sp.formula(cl.expr, S)), info={"props": cl.props})
                 ctx.cover(f"{c.qualname}/cover:raises-{matched}")
         return outcome
 
@@ -600,7 +626,7 @@ def build_hooks(c: Contract):
         cc = REGISTRY.get(key)
         if cc is None:
             raise Unsupported(f"contract {key} used by {c.qualname} is not defined")
-        contracts[key] = make_applier(cc)
+        contracts[(cc.module, cc.qualname)] = make_applier(cc)
     hooks["contracts"] = contracts
     hooks["loops"] = {(c.module, q, o): spec for (q, o), spec in c.loops.items()} if c.loops and isinstance(next(iter(c.loops)), tuple) else {
         (c.module, c.qualname, o): spec for o, spec in c.loops.items()
@@ -612,7 +638,8 @@ def build_hooks(c: Contract):
 
 def solve_all(res: UnitResult, budget_s=30.0, both=False):
     t0 = time.time()
-    for vc in res.vcs:
-        solve_vc(vc, budget_s=budget_s, both=both)
+    from .solve import solve_many
+
+    solve_many(res.vcs, budget_s=budget_s, both=both)
     res.secs_solve = time.time() - t0
     return res
